@@ -297,7 +297,7 @@ func replayFindings(prog *Program, cfg *CheckCfg, pkgDir string, fl []*Finding, 
 }
 
 func writeReplayFile(prop string, f *Finding, specs []harnessSpec, tier int) string {
-	dir := filepath.Join(verifRoot, "evidence", "replay")
+	dir := filepath.Join(evidenceDir(), "replay")
 	os.MkdirAll(dir, 0o755)
 	name := prop + "-" + sanitize(f.Harness) + "-" + sanitize(f.AssertID)
 	if len(name) > 150 {
